@@ -217,6 +217,42 @@ pub proof fn lemma_built_push(v: Seq<Page>, p0: Seq<Page>, spi: int, ps: Seq<(us
     assert forall|j: int| 0 <= j < spi implies v1[j] == p0[j] by { assert(v1[j] == v[j]); }
 }
 // the finished table is well formed and holds exactly the kept full pages plus the encoded values
+// the chain property of the finished table (split out of lemma_built_done to keep each query small)
+pub proof fn lemma_built_chain(v: Seq<Page>, p0: Seq<Page>, spi: int, ps: Seq<(usize, usize, bool)>, truncate_at: int, per_page: int, size: int, region_len0: int)
+    requires
+        built(v, p0, spi, ps, ps.len() as int, truncate_at), truncate_at == start_of(p0, spi),
+        pages_wf(p0, per_page, size, region_len0),
+    ensures
+        forall|i: int| 0 <= i < v.len() ==> (#[trigger] v[i]).start == (if i == 0 { HEADER_OFFSET as int } else { pend(v[i - 1]) }),
+{
+    assert forall|i: int| 0 <= i < v.len() implies (#[trigger] v[i]).start == (if i == 0 { HEADER_OFFSET as int } else { pend(v[i - 1]) }) by {
+        if i < spi {
+            assert(v[i] == p0[i]); if i > 0 { assert(v[i - 1] == p0[i - 1]); }
+            assert(p0[i].start == start_of(p0, i));
+        } else if i == spi {
+            assert(ps.take(0).len() == 0);
+            assert(sum_bytes(ps.take(0)) == 0);
+            if spi > 0 { assert(v[spi - 1] == p0[spi - 1]); }
+        } else {
+            lemma_sum_take(ps, i - spi - 1);
+            assert(v[i - 1].start == truncate_at + sum_bytes(ps.take(i - 1 - spi)));
+            assert(v[i - 1].bytes == ps[i - 1 - spi].0);
+        }
+    }
+}
+pub proof fn lemma_built_full(v: Seq<Page>, p0: Seq<Page>, spi: int, ps: Seq<(usize, usize, bool)>, truncate_at: int, per_page: int, size: int)
+    requires
+        built(v, p0, spi, ps, ps.len() as int, truncate_at),
+        forall|i: int| 0 <= i < spi ==> pcount(#[trigger] p0[i]) == per_page && !praw(p0[i]),
+        sizes_ok(ps, per_page, size),
+    ensures
+        forall|i: int| 0 <= i < v.len() - 1 ==> pcount(#[trigger] v[i]) == per_page && !praw(v[i]),
+{
+    let n = ps.len() as int;
+    assert forall|i: int| 0 <= i < v.len() - 1 implies pcount(#[trigger] v[i]) == per_page && !praw(v[i]) by {
+        if i < spi { assert(v[i] == p0[i]); } else { assert(!ps[i - spi].2) by { if ps[i - spi].2 { assert(i - spi == n - 1); } } }
+    }
+}
 pub proof fn lemma_built_done(v: Seq<Page>, p0: Seq<Page>, spi: int, ps: Seq<(usize, usize, bool)>, truncate_at: int, per_page: int, size: int, region_len0: int)
     requires
         built(v, p0, spi, ps, ps.len() as int, truncate_at), truncate_at == start_of(p0, spi),
@@ -230,20 +266,8 @@ pub proof fn lemma_built_done(v: Seq<Page>, p0: Seq<Page>, spi: int, ps: Seq<(us
     let n = ps.len() as int;
     assert(ps.take(n) =~= ps);
     lemma_built_next_start(v, p0, spi, ps, n, truncate_at);
-    assert forall|i: int| 0 <= i < v.len() implies (#[trigger] v[i]).start == (if i == 0 { HEADER_OFFSET as int } else { pend(v[i - 1]) }) by {
-        if i < spi {
-            assert(v[i] == p0[i]); if i > 0 { assert(v[i - 1] == p0[i - 1]); }
-            assert(p0[i].start == start_of(p0, i));
-        } else if i == spi {
-            assert(ps.take(0).len() == 0);
-            if spi > 0 { assert(v[spi - 1] == p0[spi - 1]); }
-        } else {
-            lemma_sum_take(ps, i - spi - 1);
-        }
-    }
-    assert forall|i: int| 0 <= i < v.len() - 1 implies pcount(#[trigger] v[i]) == per_page && !praw(v[i]) by {
-        if i < spi { assert(v[i] == p0[i]); } else { assert(!ps[i - spi].2) by { if ps[i - spi].2 { assert(i - spi == n - 1); } } }
-    }
+    lemma_built_chain(v, p0, spi, ps, truncate_at, per_page, size, region_len0);
+    lemma_built_full(v, p0, spi, ps, truncate_at, per_page, size);
     if n > 0 {
         lemma_sum_vals_full(ps, per_page, size);
         assert(v.last() == v[spi + n - 1]);
